@@ -1,0 +1,57 @@
+//go:build verif
+
+package wsflate
+
+import (
+	"bytes"
+	"compress/flate"
+	"io"
+	"io/ioutil"
+	"testing"
+)
+
+// Spec validation for /verif (not a proof): RFC 7692 section 7.2.3 gives the bytes of compressed
+// messages. They are inflated here through the library's reader (which appends the 00 00 ff ff
+// tail the sender removed), and the library's writer output is inflated by compress/flate alone
+// after putting the tail back: a sanity check of the interoperability *assumption* behind C12.
+func TestSpecVectors_RFC7692_7_2_3(t *testing.T) {
+	newR := func(r io.Reader) Decompressor { return flate.NewReader(r) }
+	for _, c := range []struct {
+		name string
+		wire []byte
+		want string
+	}{
+		{"7.2.3.1 one deflate block", []byte{0xf2, 0x48, 0xcd, 0xc9, 0xc9, 0x07, 0x00}, "Hello"},
+		{"7.2.3.2 context takeover, first message", []byte{0xf2, 0x48, 0xcd, 0xc9, 0xc9, 0x07, 0x00}, "Hello"},
+		{"7.2.3.3 no compression block", []byte{0x00, 0x05, 0x00, 0xfa, 0xff, 0x48, 0x65, 0x6c, 0x6c, 0x6f, 0x00}, "Hello"},
+		{"7.2.3.5 two blocks in one message", []byte{0xf2, 0x48, 0x05, 0x00, 0x00, 0x00, 0xff, 0xff, 0xca, 0xc9, 0xc9, 0x07, 0x00}, "Hello"},
+	} {
+		r := NewReader(bytes.NewReader(c.wire), newR)
+		got, err := ioutil.ReadAll(r)
+		if err != nil || string(got) != c.want {
+			t.Errorf("%s: inflated %q, %v; RFC says %q", c.name, got, err, c.want)
+		}
+	}
+	var buf bytes.Buffer
+	w := NewWriter(&buf, func(w io.Writer) Compressor {
+		f, _ := flate.NewWriter(w, 9)
+		return f
+	})
+	if _, err := w.Write([]byte("Hello")); err != nil {
+		t.Fatal(err)
+	}
+	if err := w.Close(); err != nil {
+		t.Fatal(err)
+	}
+	wire := append(append([]byte{}, buf.Bytes()...), 0x00, 0x00, 0xff, 0xff)
+	// an independent inflater needs a final block to stop at: RFC 7692 7.2.2 tells the receiver to
+	// append the tail; a stored empty final block ends the stream for compress/flate
+	wire = append(wire, 0x01, 0x00, 0x00, 0xff, 0xff)
+	got, err := ioutil.ReadAll(flate.NewReader(bytes.NewReader(wire)))
+	if err != nil || string(got) != "Hello" {
+		t.Errorf("library output % x inflates to %q, %v", buf.Bytes(), got, err)
+	}
+	if bytes.HasSuffix(buf.Bytes(), []byte{0x00, 0x00, 0xff, 0xff}) {
+		t.Errorf("library output still carries the 00 00 ff ff tail")
+	}
+}
